@@ -167,8 +167,8 @@ package crypto
 // small Go wrappers around the C glue
 
 //@ func readScalarFrStar mode int props C05 C09
-//@ dead-return 1   // Fr_star_read_bytes only returns VALID, BAD_ENCODING or BAD_VALUE
-//@ dead-return 2   // the length was checked before the call: BAD_ENCODING cannot come back
+//@ dead-return 5   // Fr_star_read_bytes only returns VALID, BAD_ENCODING or BAD_VALUE
+//@ dead-return 4   // the length was checked before the call: BAD_ENCODING cannot come back
 //@ requires a != nil
 //@ assigns *a
 //@ ensures [error-class] result == nil || iserr(result, *invalidInputsError)
@@ -1024,7 +1024,7 @@ package crypto
 //@ ensures [hasher-configuration-untouched] kmac != nil ==> unchanged(kmac.cfg) && unchanged(kmac.osize)
 
 //@ func (*pubKeyBLSBLS12381).Verify mode int props C01 C09 C19
-//@ dead-return 1   // bls_verify never returns a code other than VALID / INVALID
+//@ dead-return 6   // bls_verify never returns a code other than VALID / INVALID
 //@ requires pk != nil
 //@ assigns ghost(kmac)
 //@ ensures [nil-hasher] kmac == nil ==> !result0 && result1 == errNilHasher
@@ -1068,7 +1068,7 @@ package crypto
 //@ ensures result != nil
 
 //@ func SPOCKVerify mode int props C17 C09 C19
-//@ dead-return 2   // bls_spock_verify never returns a code other than VALID / INVALID
+//@ dead-return 6   // bls_spock_verify never returns a code other than VALID / INVALID
 //@ requires pk1 != nil && pk2 != nil
 //@ requires [no-typed-nil-keys] (typeis(pk1, *pubKeyBLSBLS12381) ==> unbox(pk1, *pubKeyBLSBLS12381) != nil) && (typeis(pk2, *pubKeyBLSBLS12381) ==> unbox(pk2, *pubKeyBLSBLS12381) != nil)
 //@ assigns nothing
@@ -1185,7 +1185,7 @@ package crypto
 //@ pred g2encOf(out, P) = (e2IsInf(P) ==> g2infEnc(out)) && (!e2IsInf(P) ==> g1flagC(out) && !g1flagI(out) && (out[0]/32)%2 == fp2Sgn(e2y(e2Affine(P))) && g2x1(out) == fpFromMont(fp2c1(e2x(e2Affine(P)))) && g2x0(out) == fpFromMont(fp2c0(e2x(e2Affine(P)))))
 
 //@ func readPointE2 mode int props C05 C09
-//@ dead-return 1   // E2_read_bytes only returns VALID, BAD_ENCODING, BAD_VALUE or POINT_NOT_ON_CURVE
+//@ dead-return 4   // E2_read_bytes only returns VALID, BAD_ENCODING, BAD_VALUE or POINT_NOT_ON_CURVE
 //@ requires a != nil && len(src) >= 1
 //@ assigns *a
 //@ ensures [error-class] result == nil || iserr(result, *invalidInputsError)
@@ -1193,7 +1193,7 @@ package crypto
 //@ ensures [decoded-point] result == nil ==> *a == old(g2pt(src))
 
 //@ func readPointE1 mode int props C05 C09
-//@ dead-return 1   // E1_read_bytes only returns VALID, BAD_ENCODING, BAD_VALUE or POINT_NOT_ON_CURVE
+//@ dead-return 4   // E1_read_bytes only returns VALID, BAD_ENCODING, BAD_VALUE or POINT_NOT_ON_CURVE
 //@ requires a != nil && len(src) >= 1
 //@ assigns *a
 //@ ensures [error-class] result == nil || iserr(result, *invalidInputsError)
@@ -1308,7 +1308,7 @@ package crypto
 //@ ensures [one-critical-section] unlocked(s) && s.lock.acq <= old(s.lock.acq) + 1
 
 //@ func (*blsThresholdSignatureInspector).VerifyAndAdd mode int props C18 C06 C09
-//@ dead-return 2   // Verify only fails for a nil or ill-sized hasher: excluded by the inspector's invariant
+//@ dead-return 4   // Verify only fails for a nil or ill-sized hasher: excluded by the inspector's invariant
 //@ requires tsInv(s) && unlocked(s)
 //@ assigns s.lock, obj(s.shares), ghost(s.hasher)
 //@ ensures [inv] tsInv(s) && tsKept(s)
@@ -1484,7 +1484,7 @@ package crypto
 //@ assigns nothing
 
 //@ func BatchVerifyBLSSignaturesOneMessage mode int props C03 C19 C09
-//@ dead-return 2   // bls_batch_verify decides every entry (VALID or INVALID) for a 128-byte hash
+//@ dead-return 6   // bls_batch_verify decides every entry (VALID or INVALID) for a 128-byte hash
 //@ requires noTypedNilKeys(pks) && len(pks) <= 16777215
 //@ assigns ghost(kmac)
 //@ ensures [one-verdict-per-signature] len(result0) == len(sigs) && fresh(result0)
@@ -1518,7 +1518,7 @@ package crypto
 //@ loop 1 assigns vec[0:n], i, error
 
 //@ func AggregateBLSSignatures mode int props C04 C05 C09 C19
-//@ dead-return 1   // E1_sum_vector_byte only returns VALID or INVALID
+//@ dead-return 5   // E1_sum_vector_byte only returns VALID or INVALID
 //@ assigns nothing
 //@ ensures [empty] len(sigs) == 0 ==> result0 == nil && result1 == errBLSAggregateEmptyList
 //@ ensures [wrong-length-signature] len(sigs) > 0 && exists(k, 0, len(sigs), len(sigs[k]) != 48) ==> len(result0) == 0 && iserr(result1, errInvalidSignature)
@@ -1680,7 +1680,7 @@ package crypto
 // ---- VerifyBLSSignatureManyMessages (C02): input validation, error classes, and the preconditions of the two C functions
 //@ pred mmLists(pks, s, messages, kmac) = len(s) == 48 && len(pks) != 0 && len(pks) == len(messages) && len(kmac) == len(messages)
 //@ func VerifyBLSSignatureManyMessages mode int props C02 C09
-//@ dead-return 1   // the C functions only return VALID or INVALID
+//@ dead-return 9   // the C functions only return VALID or INVALID
 //@ requires noTypedNilKeys(pks) && len(pks) <= 16777215
 //@ assigns everything
 //@ ensures [wrong-length-signature] len(s) != 48 ==> !result0 && result1 == nil
@@ -1774,7 +1774,7 @@ package crypto
 //@ pred goKeyOf(k, c, d) = k != nil && k.D != nil && k.D.v == d && k.Curve == c && k.X != nil && k.Y != nil && k.X.v == pubX(c, d) && k.Y.v == pubY(c, d)
 
 //@ func goecdsaPrivateKey mode int props C12 C05 C09
-//@ dead-return 3   // crypto/ecdh accepts every scalar in [1, n-1]
+//@ dead-return 1   // crypto/ecdh accepts every scalar in [1, n-1]
 //@ requires d != nil && 1 <= d.v && d.v < curveN(curve) && curveN(curve) < 115792089237316195423570985008687907853269984665640564039457584007913129639936
 //@ requires 57896044618658097711785492504343953926634992332820282019728792003956564819968 <= curveP(curve) && curveP(curve) < 115792089237316195423570985008687907853269984665640564039457584007913129639936 && 57896044618658097711785492504343953926634992332820282019728792003956564819968 <= curveN(curve)
 //@ assigns nothing
@@ -1790,7 +1790,7 @@ package crypto
 //@ assigns data[:]
 
 //@ func (*ecdsaAlgo).generatePrivateKey mode int props C12 C09
-//@ dead-return 2   // HKDF cannot fail for a 48-byte output
+//@ dead-return 4   // HKDF cannot fail for a 48-byte output
 //@ dead-return 3   // the scalar is in [1, n-1] and the curve is supported
 //@ requires ecdsaAlgoOK(a) && curveOK(a.curve) && curveSizes(a.curve)
 //@ assigns nothing
@@ -1798,7 +1798,7 @@ package crypto
 //@ ensures [key-is-hkdf-of-the-seed-reduced-into-1-to-n-1] len(seed) >= 32 && len(seed) <= 256 ==> result1 == nil && typeis(result0, *prKeyECDSA) && fresh(unbox(result0, *prKeyECDSA)) && skECDSAOK(unbox(result0, *prKeyECDSA)) && unbox(result0, *prKeyECDSA).alg == a && unbox(result0, *prKeyECDSA).pubKey == nil && goKeyOf(unbox(result0, *prKeyECDSA).goPrKey, a.curve, hkdfNat(seqid(seed), seqid(""), seqid(""), 48) % (curveN(a.curve) - 1) + 1)
 
 //@ func (*ecdsaAlgo).rawDecodePrivateKey mode int props C05 C12 C09
-//@ dead-return 2   // the scalar is in [1, n-1] and the curve is supported
+//@ dead-return 4   // the scalar is in [1, n-1] and the curve is supported
 //@ requires ecdsaAlgoOK(a) && curveOK(a.curve) && curveSizes(a.curve)
 //@ assigns nothing
 //@ ensures [accepts-exactly-32-byte-scalars-in-1-to-n-1] (result1 == nil) == (len(der) == 32 && 1 <= be32(der[0:32]) && be32(der[0:32]) < curveN(a.curve))
@@ -1806,7 +1806,7 @@ package crypto
 //@ ensures [key] result1 == nil ==> typeis(result0, *prKeyECDSA) && fresh(unbox(result0, *prKeyECDSA)) && skECDSAOK(unbox(result0, *prKeyECDSA)) && unbox(result0, *prKeyECDSA).alg == a && goKeyOf(unbox(result0, *prKeyECDSA).goPrKey, a.curve, be32(der[0:32]))
 
 //@ func (*ecdsaAlgo).rawDecodePublicKey mode int props C05 C09
-//@ dead-return 1   // the curve is one of the two supported ones
+//@ dead-return 5   // the curve is one of the two supported ones
 //@ requires ecdsaAlgoOK(a) && curveOK(a.curve) && curveSizes(a.curve)
 //@ assigns nothing
 //@ ensures [accepts-exactly-reduced-on-curve-points] (result1 == nil) == (len(der) == 64 && be32(der[0:32]) < curveP(a.curve) && be32(der[32:64]) < curveP(a.curve) && onCurve(a.curve, be32(der[0:32]), be32(der[32:64])))
@@ -1814,7 +1814,7 @@ package crypto
 //@ ensures [key] result1 == nil ==> typeis(result0, *pubKeyECDSA) && fresh(unbox(result0, *pubKeyECDSA)) && pkECDSAOK(unbox(result0, *pubKeyECDSA)) && unbox(result0, *pubKeyECDSA).alg == a && unbox(result0, *pubKeyECDSA).goPubKey.X.v == be32(der[0:32]) && unbox(result0, *pubKeyECDSA).goPubKey.Y.v == be32(der[32:64])
 
 //@ func (*ecdsaAlgo).decodePublicKeyCompressed mode int props C05 C09
-//@ dead-return 1   // the curve is one of the two supported ones
+//@ dead-return 4   // the curve is one of the two supported ones
 //@ requires ecdsaAlgoOK(a) && curveOK(a.curve) && curveSizes(a.curve) && curveBits(a.curve) == 256
 //@ assigns nothing
 //@ ensures [accepts-exactly-x962-compressed-points] (result1 == nil) == (len(pkBytes) == 33 && (pkBytes[0] == 2 || pkBytes[0] == 3) && be32(pkBytes[1:33]) < curveP(a.curve) && compressedOK(a.curve, pkBytes[0], be32(pkBytes[1:33])))
@@ -1897,7 +1897,7 @@ package crypto
 
 // BLS key generation: seed length bounds, the result is never the zero scalar (the HKDF rounds are not specified further)
 //@ func (*blsBLS12381Algo).generatePrivateKey mode int props C12 C09
-//@ dead-return 2   // HKDF cannot fail for a 48-byte output
+//@ dead-return 3   // HKDF cannot fail for a 48-byte output
 //@ assigns nothing
 //@ ensures [seed-length] (len(ikm) < 32 || len(ikm) > 256) ==> result0 == nil && iserr(result1, *invalidInputsError)
 //@ ensures [key-never-zero] len(ikm) >= 32 && len(ikm) <= 256 && result1 == nil ==> typeis(result0, *prKeyBLSBLS12381) && unbox(result0, *prKeyBLSBLS12381).scalar != 0 && frOK(unbox(result0, *prKeyBLSBLS12381).scalar)
